@@ -206,10 +206,13 @@ defvjp(
         "ij,...->ij...", anp.eye(x.shape[0], x.shape[1], k=offset), g
     ),
 )
-defvjp(anp.full, lambda ans, shape, fill_value, dtype=None: lambda g: anp.sum(g), argnums=(1,))
+defvjp(anp.full, lambda ans, shape, fill_value, dtype=None: unbroadcast_f(fill_value, lambda g: g), argnums=(1,))
 defvjp(anp.triu, lambda ans, x, k=0: lambda g: anp.triu(g, k=k))
 defvjp(anp.tril, lambda ans, x, k=0: lambda g: anp.tril(g, k=k))
-defvjp(anp.clip, lambda ans, x, a_min, a_max: lambda g: g * anp.logical_and(ans != a_min, ans != a_max))
+defvjp(
+    anp.clip,
+    lambda ans, x, a_min, a_max: unbroadcast_f(x, lambda g: g * anp.logical_and(ans != a_min, ans != a_max)),
+)
 defvjp(anp.swapaxes, lambda ans, x, axis1, axis2: lambda g: anp.swapaxes(g, axis2, axis1))
 defvjp(anp.moveaxis, lambda ans, a, source, destination: lambda g: anp.moveaxis(g, destination, source))
 defvjp(anp.real_if_close, lambda ans, x: lambda g: match_complex(x, g))
@@ -221,8 +224,8 @@ defvjp(anp.angle, lambda ans, x: lambda g: match_complex(x, g * anp.conj(x * 1j)
 defvjp(
     anp.where,
     None,
-    lambda ans, c, x=None, y=None: lambda g: anp.where(c, g, anp.zeros(g.shape)),
-    lambda ans, c, x=None, y=None: lambda g: anp.where(c, anp.zeros(g.shape), g),
+    lambda ans, c, x=None, y=None: unbroadcast_f(x, lambda g: anp.where(c, g, anp.zeros(g.shape))),
+    lambda ans, c, x=None, y=None: unbroadcast_f(y, lambda g: anp.where(c, anp.zeros(g.shape), g)),
 )
 defvjp(
     anp.cross,
